@@ -57,9 +57,19 @@ def _build(case, order="low", rot_first=True, inverse="quick"):
     rot = _rot(case["rot"]) if case.get("rot") else None
     if rot is not None and rot_first:
         se.setRotationMatrix(rot)
-    se.setElasticTensor(_stiff(case["cM"]))
+    api = case.get("api", "tensor")      # "named": the stiffness entered through setElasticConstants / setModuli (and the precipitate versions)
+    def put(spec, tensor_setter, const_setter, moduli_setter):
+        if api == "named" and spec[0] == "iso":
+            moduli_setter(E=spec[1], nu=spec[2])
+        elif api == "named":
+            const_setter(spec[1], spec[2], spec[3])
+        else:
+            tensor_setter(_stiff(spec))
+    put(case["cM"], se.setElasticTensor, se.setElasticConstants, se.setModuli)
     if case.get("cP"):
-        se.setElasticTensorPrecipitate(_stiff(case["cP"]))
+        put(case["cP"], se.setElasticTensorPrecipitate, se.setElasticConsantsPrecipitate, se.setModuliPrecipitate)
+        if case.get("rotP"):
+            se.setRotationPrecipitate(_rot(case["rotP"]))
     if rot is not None and not rot_first:
         se.setRotationMatrix(rot)
     se.setEigenstrain(_eig(case["eig"]))
@@ -123,6 +133,12 @@ def check_quadratic(case):
     if not case.get("cP"):
         if not math.isclose(b4, e4, rel_tol=1e-9, abs_tol=1e-12 * scale):
             out.fail("bohm_not_homogeneous_limit", "equal stiffnesses: inhomogeneous-inclusion energy %r, homogeneous-inclusion energy %r (ratio %.4f)" % (b4, e4, b4 / e4 if e4 else float("nan")), shear=shear)
+    # the stiffness may be entered as a tensor or through the named constants / moduli: same energy
+    Ea = float(_build(dict(case, api="named" if case.get("api", "tensor") == "tensor" else "tensor")).compute(r))
+    if not math.isclose(Ea, E, rel_tol=1e-9, abs_tol=1e-12 * scale):
+        out.fail("entry_point_matters", "stiffness entered as tensor vs through setElasticConstants/setModuli (and precipitate versions): %r vs %r" % (E, Ea))
+    if case.get("rotP") and case.get("cP"):
+        out.label("precipitate_rotated")
     if case.get("rot"):
         Eo = float(_build(case, rot_first=False).compute(r))
         if not math.isclose(Eo, E, rel_tol=1e-9, abs_tol=1e-12 * scale):
@@ -389,6 +405,10 @@ def _quad_case(draw):
             "s": draw(st.floats(0.1, 10)), "c": draw(st.floats(0.1, 5)) * draw(st.sampled_from([1.0, -1.0]))}
     if draw(st.booleans()):
         case["rot"] = [draw(st.floats(-1, 1)) for _ in range(3)] + [draw(st.floats(0.1, 1))]
+    if case["cP"] is not None and draw(st.integers(0, 2)) == 2:
+        case["rotP"] = [draw(st.floats(-1, 1)) for _ in range(3)] + [draw(st.floats(0.1, 1))]      # the precipitate's own rotation
+    if draw(st.booleans()):
+        case["api"] = "named"
     return case
 
 
@@ -471,8 +491,8 @@ PREDICATES = {"lebedev_nodes_inexact": pred_lebedev, "negative_with_lebedev_node
 def clauses():
     return [
         Clause("quadratic", _quad_case, check_quadratic, quick=1200, thorough=60000,
-               rule="generator: matrix stiffness (isotropic/cubic, Zener ratio 0.3-4) x precipitate stiffness (same/isotropic/cubic) x eigenstrain (scalar/vector/symmetric tensor, |eps| <= 0.05) x semi-axes (sphere/needle/plate/general, aspect <= 20) x optional rotation; "
-                    "oracle: E >= 0, E(s r) = s^3 E(r), E(c eps) = c^2 E(eps), quick vs numpy 3x3 inverse, 4th-rank vs 6x6 variants, inhomogeneous = homogeneous result for equal stiffness, rotation/stiffness setter order; non-trivial: non-spherical, cubic or rotated"),
+               rule="generator: matrix stiffness (isotropic/cubic, Zener ratio 0.3-4) x precipitate stiffness (same/isotropic/cubic) x eigenstrain (scalar/vector/symmetric tensor, |eps| <= 0.05) x semi-axes (sphere/needle/plate/general, aspect <= 20) x optional rotation of the matrix and of the precipitate x stiffness entered as tensor or through the named constants/moduli; "
+                    "oracle: E >= 0, E(s r) = s^3 E(r), E(c eps) = c^2 E(eps), quick vs numpy 3x3 inverse, 4th-rank vs 6x6 variants, inhomogeneous = homogeneous result for equal stiffness, rotation/stiffness setter order, entry point of the stiffness; non-trivial: non-spherical, cubic or rotated"),
         Clause("sphere", _sphere_case, check_sphere, quick=300, thorough=15000,
                rule="generator: isotropic (E, nu), dilatational eigenstrain, radius, 1-3 quadrature orders; closed form 2G(1+nu)/(1-nu) eps^2 V through the Eshelby path and the spherical approximation (1e-9), textbook Eshelby tensor components and trace"),
         Clause("orientation", _orient_case, check_orientation, quick=300, thorough=15000,
